@@ -112,9 +112,29 @@ RULE = ("every distinct TLC state of MC_Ops with the API-level actions enabled i
         "exception or shape, dtype, dense form and one product of the result")
 
 
+def rewrite_summary(r):
+    """Mechanism model of the rewriting layer (spec/Rewrite.tla, MC_Rewrite.tla): TLC proves Impl(e) preserves the
+    meaning of every enumerated API expression (ImplSound / ImplShape / ImplDType / ImplNormal / ImplTotal, with
+    mutant negative controls); the tree cola really builds is compared with Impl(e) - a difference is MODEL-DRIFT,
+    reported but not a violation (the matrix of the real operator is what (1)-(2) above decide)."""
+    from .. import tla
+    if r.get("model_error"):
+        raise tla.TLCError("MC_Rewrite: " + str(r["model_error"])[:3000])
+    drift = r.get("drift") or []
+    cov = {"rewrite_model_states": r.get("distinct"), "rewrite_model_generated": r.get("states"),
+           "rewrite_cases_compared_with_real_trees": r.get("compared"), "rewrite_drift": len(drift),
+           "rewrite_negative_controls_rejected": r.get("negative_controls"),
+           "rewrite_drift_examples": [str(d)[:300] for d in drift[:5]]}
+    extra = []
+    if drift:
+        extra.append(f"MODEL-DRIFT: the tree cola builds differs from Rewrite.tla!Impl on {len(drift)} expression(s), "
+                     f"e.g. {str(drift[0])[:300]}")
+    return [], cov, extra
+
+
 def run(tier):
     return opsfam.run_generic(PROP, tier, plan, observe, opsfam.ASSUMPTIONS, RULE,
-                              keep=lambda c: len(c["t"]["a"]) > 0)
+                              keep=lambda c: len(c["t"]["a"]) > 0, extra_phase=("rewritefam", rewrite_summary))
 
 
 def replay(path):
